@@ -78,7 +78,7 @@ M("cp_dtmin_not_clamped", "delta_t_min not clamped at 0", ["C08"],
 M("cp_fprime_sign", "wrong sign in the f' update", ["C08"],
   ("lbfgsb/cauchy.py", "        f_prime += delta_t * f_second + g_b * (g_b + mats.theta * zb)\n",
    "        f_prime += delta_t * f_second - g_b * (g_b + mats.theta * zb)\n"))
-M("cp_c_not_advanced", "c not advanced on the last segment", ["C08", "C09"],
+M("cp_c_not_advanced", "c not advanced on the last segment", ["C08"],
   ("lbfgsb/cauchy.py", "    c += delta_t_min * p\n\n    if logger is not None:", "    if logger is not None:"))
 M("cp_strict_break", "break test uses <= (stops at a breakpoint one segment early on ties)", ["C08"],
   ("lbfgsb/cauchy.py", "        if delta_t > 0 and delta_t_min < delta_t:\n            is_gpc_found = True", "        if delta_t > 0 and delta_t_min <= delta_t:\n            is_gpc_found = True"))
@@ -124,7 +124,7 @@ M("ls_le", "< -> <= in the best-trial test (returns a non-improving step)", ["C1
   ("lbfgsb/linesearch.py", "            if f_m1 < best_f:\n", "            if f_m1 <= best_f:\n"))
 M("ls_cap_off_by_one", "evaluation cap off by one", ["C11", "C04"],
   ("lbfgsb/linesearch.py", "    while _iter < max_iter:\n", "    while _iter <= max_iter:\n"))
-M("ls_amax_wrong_bound", "max step computed with the wrong bound for d < 0", ["C11", "C02"],
+M("ls_amax_wrong_bound", "max step computed with the wrong bound for d < 0", ["C11"],
   ("lbfgsb/linesearch.py", "            d[_mask] > 0, (ub - x)[_mask] / d[_mask], (lb - x)[_mask] / d[_mask]\n",
    "            d[_mask] > 0, (ub - x)[_mask] / d[_mask], (x - ub)[_mask] / d[_mask]\n"))
 M("ls_first_step_unit", "first step 1 instead of 1/||d||", ["C12"],
@@ -167,7 +167,7 @@ M("main_iter_not_success", "iteration limit reported with success False", ["C04"
    "        istate.task_str = \"STOP: TOTAL NO. of ITERATIONS REACHED LIMIT\"\n        istate.is_success = False\n"))
 M("main_loop_nfev_le", "loop guard nfev <= maxfun (one iteration too many)", ["C04"],
   ("lbfgsb/main.py", "        and sf.nfev < maxfun\n", "        and sf.nfev <= maxfun\n"))
-M("main_loop_nit_le", "loop guard nit <= maxiter (one iteration too many)", ["C04", "C07", "C06"],
+M("main_loop_nit_le", "loop guard nit <= maxiter (one iteration too many)", ["C04", "C07"],
   ("lbfgsb/main.py", "        and istate.nit < maxiter\n", "        and istate.nit <= maxiter\n"))
 M("main_target_lt", "target test uses f < ftarget... reported as target when not reached: f0 >= ftarget inverted", ["C04"],
   ("lbfgsb/main.py", "    if f0 > ftarget:\n        return False\n", "    if f0 > ftarget + 1e-3 * abs(ftarget):\n        return False\n"))
@@ -187,7 +187,7 @@ M("ck_no_reinsert", "current point not re-inserted into the history at restart",
 M("ck_keep_oldest", "oldest pairs kept when maxcor shrinks at restart", ["C06"],
   ("lbfgsb/main.py", "        if len(X) > maxcor:\n            X.popleft()\n            G.popleft()\n        X.append(x)\n        G.append(g)\n",
    "        if len(X) >= maxcor:\n            continue\n        X.append(x)\n        G.append(g)\n"))
-M("ck_nit_not_restored", "nit not restored from the checkpoint", ["C06", "C04"],
+M("ck_nit_not_restored", "nit not restored from the checkpoint", ["C06"],
   ("lbfgsb/main.py", "    if checkpoint is not None:\n        istate.nit = checkpoint.nit\n", "    if checkpoint is not None:\n        pass\n"))
 M("ck_f0_recomputed_wrong", "restart takes f0 from the checkpoint but forgets the gradient scaling sign (uses -jac)", ["C06"],
   ("lbfgsb/main.py", "        grad = checkpoint.jac\n", "        grad = -checkpoint.jac\n"))
@@ -280,8 +280,8 @@ M("hi_unscaled_G", "G holds the unscaled gradient of the first point", ["C18", "
 M("hi_diag_first_component", "diagonal utility returns matvec(v)[0]", ["C18"],
   ("lbfgsb/utils.py", "        hess_inv_diag[i] = hess_inv.matvec(v)[i]\n", "        hess_inv_diag[i] = hess_inv.matvec(v)[0]\n"))
 M("hi_X_alias", "the stored iterate aliases the live x (no copy)", ["C18", "C10"],
-  ("lbfgsb/main.py", "            mats = update_lbfgs_matrices(\n                x.copy(),  # copy otherwise x might be changed in X when updated\n                grad,\n                X,\n                G,\n                maxcor,\n                mats,\n                is_force_update=False,\n                eps=eps_SY,\n                is_check_factorization=is_check_factorization,\n            )\n\n            # callback",
-   "            mats = update_lbfgs_matrices(\n                x,  # copy otherwise x might be changed in X when updated\n                grad,\n                X,\n                G,\n                maxcor,\n                mats,\n                is_force_update=False,\n                eps=eps_SY,\n                is_check_factorization=is_check_factorization,\n            )\n\n            # callback"))
+  ("lbfgsb/main.py", "            mats = update_lbfgs_matrices(\n                x.copy(),  # copy otherwise x might be changed in X when updated\n                grad,\n                X,\n                G,\n                maxcor,\n                mats,\n                is_force_update=update_fun_def is not None and len(X) > 1,\n                eps=eps_SY,\n                is_check_factorization=is_check_factorization,\n            )\n\n            # callback",
+   "            mats = update_lbfgs_matrices(\n                x,  # copy otherwise x might be changed in X when updated\n                grad,\n                X,\n                G,\n                maxcor,\n                mats,\n                is_force_update=update_fun_def is not None and len(X) > 1,\n                eps=eps_SY,\n                is_check_factorization=is_check_factorization,\n            )\n\n            # callback"))
 M("hi_callback_pairs_float32", "callback pairs rounded through float32", ["C18", "C07"],
   ("lbfgsb/main.py", "                            np.atleast_2d(np.diff(np.array(X), axis=0)),\n                            np.atleast_2d(np.diff(np.array(G), axis=0)),\n                        ),\n                    ),\n                ):",
    "                            np.atleast_2d(np.diff(np.array(X), axis=0)).astype(np.float32).astype(float),\n                            np.atleast_2d(np.diff(np.array(G), axis=0)),\n                        ),\n                    ),\n                ):"))
